@@ -48,7 +48,12 @@ type VirtualTable struct {
 	ColumnNameByIndex map[int]string
 	Tree              *KV
 	txStart           *kv.DB
-	KeyCol            int
+	// txBroken is set when a write of the running transaction failed inside
+	// the tree update: the in-memory tree may then be inconsistent (the
+	// tree's insert is not atomic when a node cannot be loaded) and there is
+	// no statement-level undo, so the transaction can only be rolled back.
+	txBroken error
+	KeyCol   int
 	usesRowID         bool
 
 	S3Options S3Options
@@ -599,6 +604,7 @@ func (c *VirtualTable) Insert(ctx context.Context, values map[int]interface{}) (
 	merged := MergeRows(key, ot, old, t, &new, when)
 	err = c.Tree.Root.Set(ctx, when, NewKey(key), merged)
 	if err != nil {
+		c.txBroken = err
 		return 0, fmt.Errorf("set: %w", err)
 	}
 	return 0, nil
@@ -639,6 +645,7 @@ func (c *VirtualTable) Update(ctx context.Context, key interface{}, values map[i
 	merged := MergeRows(key, ot, old, t, &new, when)
 	err = c.Tree.Root.Set(ctx, when, NewKey(key), merged)
 	if err != nil {
+		c.txBroken = err
 		return fmt.Errorf("set: %w", err)
 	}
 	return nil
@@ -660,6 +667,7 @@ func (c *VirtualTable) Delete(ctx context.Context, key interface{}) error {
 	merged := MergeRows(key, ot, old, t, &new, when)
 	err = c.Tree.Root.Set(ctx, when, NewKey(key), merged)
 	if err != nil {
+		c.txBroken = err
 		return fmt.Errorf("set: %w", err)
 	}
 	return nil
@@ -786,11 +794,16 @@ func (c *VirtualTable) Begin(ctx context.Context) error {
 	if err != nil {
 		return fmt.Errorf("clone: %w", err)
 	}
+	c.txBroken = nil
 	return nil
 }
 
 func (c *VirtualTable) Commit(ctx context.Context) error {
 	dbg("COMMIT\n")
+	if c.txBroken != nil {
+		// failing here makes SQLite roll the transaction back
+		return fmt.Errorf("a write of this transaction failed, it can only be rolled back: %w", c.txBroken)
+	}
 	_, err := c.Tree.Root.Commit(ctx)
 	if err != nil {
 		return fmt.Errorf("commit tree: %w", err)
@@ -801,6 +814,7 @@ func (c *VirtualTable) Commit(ctx context.Context) error {
 
 func (c *VirtualTable) Rollback() error {
 	dbg("ROLLBACK\n")
+	c.txBroken = nil
 	if c.txStart != nil {
 		c.Tree.Root.Cancel()
 		c.Tree.Root = c.txStart
